@@ -168,6 +168,7 @@ class Gen:
     # ---- expressions
     def num(self, cols, d):
         r = self.r
+        cols = [c for c in cols if not c[1].startswith("?")]     # unnamed frame columns cannot be referenced
         k = r.random()
         if d <= 0 or k < 0.35:
             if cols and r.random() < 0.75:
@@ -197,6 +198,7 @@ class Gen:
     def selective_filter(self, cols):
         """a filter that typically keeps some rows and drops some"""
         r = self.r
+        cols = [c for c in cols if not c[1].startswith("?")]
         cands = [c for c in cols if c[1] in ("a", "b", "c", "g", "d", "id")]
         if not cands or r.random() < 0.3:
             return self.boolean(cols, self.depth)
@@ -230,7 +232,7 @@ class Gen:
         if final_select:
             seen, its, cis, fc = set(), [], [], []
             for q, c in st["cols"]:
-                if c in seen:
+                if c in seen or c.startswith("?"):
                     continue
                 seen.add(c)
                 its.append((q + "." if q else "") + c)
@@ -281,7 +283,7 @@ class Gen:
                 return e
             st["order"] = [(d, requal(e)) for d, e in st["order"]]
         return Step("join", "join %su (%s)" % ("side:left " if side == "LeftJ" else "", prql_expr(on)),
-                    "TJoin %s %d%%N %s U_TABLE %s" % (side, nid("u"), coq_names(TABLES["u"]), coq_expr(on)), side=side)
+                    "TJoin %s %d%%N U_COLS U_TABLE %s" % (side, nid("u"), coq_expr(on)), side=side)
 
     def t_derive(self, st):
         nm = self.newname()
@@ -291,7 +293,9 @@ class Gen:
 
     def t_select(self, st):
         r = self.r
-        cols = st["cols"]
+        cols = [c for c in st["cols"] if not c[1].startswith("?")]
+        if not cols:
+            return None
         keep = [c for c in cols if r.random() < 0.6] or [cols[0]]
         # keep what the order in effect / the unique key need?  No: dropping them is exactly the C03 case
         items, citems, newcols = [], [], []
@@ -335,7 +339,7 @@ class Gen:
             return None
         ks = []
         if r.random() < 0.65:
-            q, c = r.choice(st["cols"])
+            q, c = r.choice([x for x in st["cols"] if not x[1].startswith("?")])
             ks.append((r.random() < 0.4, ("col", q, c)))
         if r.random() < 0.2:
             ks.append((r.random() < 0.5, self.num(st["cols"], 1)))
@@ -383,7 +387,9 @@ class Gen:
         r = self.r
         if st["joined"]:
             return None
-        cols = st["cols"]
+        cols = [c for c in st["cols"] if not c[1].startswith("?")]
+        if not cols or len(cols) != len(st["cols"]):
+            return None
         by = [c for q, c in cols if c in ("g", "a", "b")][: r.randint(1, 2)] or [cols[0][1]]
         inner = [c for c in cols if c[1] not in by]
         items, ci, newcols = self._aggs(inner, r.randint(1, 3))
@@ -395,7 +401,7 @@ class Gen:
 
     def _group_by(self, st):
         cols = st["cols"]
-        if len(cols) < 2:
+        if len(cols) < 2 or any(c[1].startswith("?") for c in cols):
             return None
         by = [c for q, c in cols if c in ("g", "a")][:1] or [[c for q, c in cols if c != "id"][0]]
         return by
@@ -473,7 +479,9 @@ class Gen:
     def t_distinct(self, st):
         if st["joined"] or not all(c[0] is None for c in st["cols"]):
             return None
-        keep = [c for c in st["cols"] if c[1] in ("a", "g", "b")][:2] or [st["cols"][0]]
+        keep = [c for c in st["cols"] if c[1] in ("a", "g", "b")][:2] or [c for c in st["cols"] if not c[1].startswith("?")][:1]
+        if not keep:
+            return None
         sel = Step("select", "select {%s}" % ", ".join(c for _, c in keep), "TSelect [%s]" % "; ".join("(None, ECol None %d%%N)" % nid(c) for _, c in keep))
         st["steps"].append(sel)
         st["cols"] = [(None, c) for _, c in keep]
@@ -489,8 +497,9 @@ class Gen:
         return Step("append", "append t", "TAppend T_TABLE")
 
 
-def gen_instance(rng, max_rows=6, min_rows=0):
-    """rows are inserted in an order unrelated to id, so that insertion order never equals a sort order by accident"""
+def gen_instance(rng, max_rows=6, min_rows=0, extra=()):
+    """rows are inserted in an order unrelated to id, so that insertion order never equals a sort order by accident.
+    extra: names of additional table columns the PRQL program never mentions (run-time expansion of `*`)"""
     inst = {}
     for t, cs in TABLES.items():
         n = rng.randint(min_rows, max_rows)
@@ -498,19 +507,26 @@ def gen_instance(rng, max_rows=6, min_rows=0):
         rng.shuffle(ids)
         rows = []
         for i in ids:
-            rows.append([i] + [rng.choice([None, 0, 1, 2, 3, -1, 2]) for _ in cs[1:]])
+            rows.append([i] + [rng.choice([None, 0, 1, 2, 3, -1, 2]) for _ in cs[1:]] + [rng.choice([7, 8, 9]) for _ in extra])
         inst[t] = rows
+    if extra:
+        inst["__extra__"] = list(extra)
     return inst
 
 
-def coq_rel(t, rows, qual):
-    cs = TABLES[t]
+def inst_cols(inst, t):
+    return TABLES[t] + list(inst.get("__extra__", []))
+
+
+def coq_rel(t, rows, qual, cols=None):
+    cs = cols or TABLES[t]
     return "[" + "; ".join("[" + "; ".join("(%s, Some %d%%N, %s)" % (qual, nid(c), coq_val(v)) for c, v in zip(cs, row)) + "]" for row in rows) + "]"
 
 
 def sql_setup(inst):
     out = []
-    for t, cs in TABLES.items():
+    for t in TABLES:
+        cs = inst_cols(inst, t)
         out.append("create table %s(%s)" % (t, ", ".join(cs)))
         for row in inst[t]:
             out.append("insert into %s values (%s)" % (t, ", ".join("NULL" if v is None else str(v) for v in row)))
